@@ -343,6 +343,7 @@ theorem modeKeeper_emitRData (t : Nat) (d : RData) (hp : d.proved = true) : Mode
   cases d <;> first | (simp [RData.proved] at hp; done) | skip
   all_goals unfold emitRData
   case a b => exact modeKeeper_emitSlice b
+  case aaaa b => exact modeKeeper_emitPairs b
   case name n => exact modeKeeper_withRdataBehavior (modeKeeper_emitName n) _
   case mx p n =>
     refine modeKeeper_withRdataBehavior (modeKeeper_seqAll _ ?_) _
